@@ -26,6 +26,18 @@ fn main() {
     }
     match args[1].as_str() {
         "dump" => dump(&args),
+        "c17-history" => {
+            pipeline::install_quiet_panic_hook();
+            let a: Vec<String> = args[2..].to_vec();
+            let h = std::thread::Builder::new().stack_size(1 << 28).spawn(move || checks::determinism::child_history(&a)).unwrap();
+            std::process::exit(h.join().unwrap_or(2));
+        }
+        "c17-dump" => {
+            pipeline::install_quiet_panic_hook();
+            let a = args[2].clone();
+            let h = std::thread::Builder::new().stack_size(1 << 28).spawn(move || checks::determinism::child_dump(&a)).unwrap();
+            std::process::exit(h.join().unwrap_or(2));
+        }
         "selftest" => {
             pipeline::install_quiet_panic_hook();
             let h = std::thread::Builder::new().stack_size(1 << 30).spawn(checks::selftest::run).unwrap();
